@@ -26,7 +26,7 @@ def main():
                "exception is a violation", "the idle inspection is an observation of module state after each operation (vsc.impl.ctor / expr_mode stacks, model trees)")
     t = tier()
     chk.bound("8 faulty classes (raise at 4 block positions, in if_then, in foreach, in a dynamic block, in __init__), 5+2 inline fault positions, "
-              "pre/post hooks on top object and sub-object, unsatisfiable calls; %d seeded fault histories of 2..5 faults" % (25 if t == "quick" else 300))
+              "pre/post hooks on top object and sub-object, unsatisfiable calls; %d seeded fault histories of 2..5 faults" % (25 if t == "quick" else 2500))
     specs = gen.c16_programs(t, seed())
     chk.extra["rule"] = "one evaluation = one operation after which state is inspected / one later call decided; distinct = distinct (history, position)"
     e1run.run_specs(chk, specs, KINDS, opts={"check_idle": True})
